@@ -32,6 +32,12 @@ type ShapeKey = (i16, i16, Canon, Option<String>);
 fn forward(m: &RLib, ctx: &mut Ctx) -> Result<(), String> {
     let built = crate::gen::rawlib::build_named(m, true);
     let plib = built.lib.to_proto().map_err(|e| format!("to_proto failed: {:?}", e))?;
+    // exporting is a function of the library: a second call on the same value gives the same message
+    match built.lib.to_proto() {
+        Ok(again) if again == plib => {}
+        Ok(_) => return Err("to_proto() called twice on one library gave two different messages".into()),
+        Err(e) => return Err(format!("to_proto() succeeded, then failed when called again on the same library: {:?}", e)),
+    }
     // exported cells: each after the cells it instantiates
     let pos: BTreeMap<&str, usize> = plib.cells.iter().enumerate().map(|(i, c)| (c.name.as_str(), i)).collect();
     if plib.cells.len() != m.cells.len() || pos.len() != m.cells.len() {
@@ -174,6 +180,12 @@ fn sorted(m: &BTreeMap<i16, Vec<Canon>>) -> BTreeMap<i16, Vec<Canon>> {
 }
 fn forward_case(src: &mut Src, ctx: &mut Ctx) -> Result<(), String> {
     let m = gen_rawlib(src, &opts());
+    forward(&m, ctx)
+}
+/// chains of 30-200 nested cells (with leaves shared between neighbouring levels), in any listing order
+fn deep_case(src: &mut Src, ctx: &mut Ctx) -> Result<(), String> {
+    let (m, label) = gen_deep(src, &opts());
+    ctx.label(&label);
     forward(&m, ctx)
 }
 
@@ -344,6 +356,7 @@ fn run(run: &mut Run) {
     run.explore("raw-proto-raw", run.tier.pick(300_000, 3_000_000), 1200, &forward_case);
     // the same, each case in a thread of its own (per-thread state of the code starts from scratch)
     run.explore_fresh("raw-proto-raw", run.tier.pick(3_000, 40_000), 1200, &forward_case);
+    run.explore("raw-proto-raw-deep-chains", run.tier.pick(6_000, 60_000), 1200, &deep_case);
     run.explore("proto-raw-proto", run.tier.pick(300_000, 3_000_000), 1200, &backward_case);
     // the same, each case in a thread of its own (per-thread state of the code starts from scratch)
     run.explore_fresh("proto-raw-proto", run.tier.pick(3_000, 40_000), 1200, &backward_case);
@@ -351,6 +364,7 @@ fn run(run: &mut Run) {
 fn case(sub: &str) -> Option<Box<CaseFn<'static>>> {
     match sub {
         "raw-proto-raw" => Some(Box::new(forward_case)),
+        "raw-proto-raw-deep-chains" => Some(Box::new(deep_case)),
         "proto-raw-proto" => Some(Box::new(backward_case)),
         _ => None,
     }
